@@ -146,6 +146,13 @@ CHECKS = {
             "_poincare_map bitwise identical for threads 1..16 x chunksizes and conflict-free under the parx virtual prange scheduler.",
             "scheduling points are the backend calls (the only shared objects touched by workers); p-section direction test is dt-dependent in the library (dq/dt ~ 0 at the crossing) so either crossing direction is accepted there; symplectic energy accuracy is bounded, not laddered.",
             "DESIGN.md C14"),
+    "C20": ("model_checking",
+            "explicit-state exploration of operation histories on real domain objects (all sequences over each object's alphabet up to a depth bound), every step's return value and every final observer compared with a fresh twin constructed directly in the reference model's logical state",
+            "Four object models - GenericOrbit (period setter, three propagate settings, monodromy/trajectory/stability reads, save/load), CenterManifold (degree setter, hamiltonian(d) queries, compute, to_synodic), halo orbit with three correction option sets differing only in nested fields + period setter + propagate, "
+            "System/LibrationPoint (five propagate argument sets, centre-manifold factory, linear modes, save/load) - are driven through every history up to depth 3 (System: 2; thorough: +1). The reference model holds only the logical state (initial state, period, last propagation settings, degree) and no caches; for each step a "
+            "fresh object is built in that state, the same operation is applied to it and to the long-lived object, and the results must agree; after the history all observers are compared the same way. Reads are part of the alphabet, so every cache is populated before later mutations.",
+            "orbit-level models share one System/point per process (objects that share services); save/load is explored as the last operation of every history (a reloaded object owns a new System); 'random walks for long histories' of the property text are not built (sampling).",
+            "DESIGN.md C20"),
 }
 
 NOT_YET = {
